@@ -129,6 +129,194 @@ def variant_check(chk, rng, ncase):
     return nviol
 
 
+# ------------------------------------------------------------------------------ the other variant files, exactly
+OTHER_VARIANTS = {
+    'poisson': ('pygyro/poisson/poisson_tools.py', ['pygyro/poisson/numba_poisson_tools.py', 'pygyro/poisson/pythran_poisson_tools.py']),
+    'init': ('pygyro/initialisation/initialiser_funcs.py', ['pygyro/initialisation/numba_initialiser_funcs.py',
+                                                            'pygyro/initialisation/pythran_initialiser_funcs.py',
+                                                            'pygyro/advection/pythran_deps/pythran_initialiser_funcs.py']),
+    'adv': ('pygyro/advection/accelerated_advection_steps.py', ['pygyro/advection/numba_accelerated_advection_steps.py',
+                                                                'pygyro/advection/pythran_deps/pythran_accelerated_advection_steps.py']),
+}
+
+
+def _stubs():
+    # rational stand-ins for the transcendental functions; the same ones on both sides
+    return {'CC': lambda *a, **k: None, 'njit': lambda f: f, 'f8': None, 'i4': None, 'b1': None,
+            'exp': lambda x: 1 + x + x * x / 2, 'tanh': lambda x: x / (1 + abs(x)), 'sqrt': lambda x: (1 + x) / 2,
+            'cos': lambda x: 1 - x * x / 2, 'pi': F(355, 113), 'np_abs': abs, 'abs': abs, 'real': lambda x: x}
+
+
+def _own_functions(ns, relpath):
+    import inspect
+    return {n: v for n, v in ns.items() if inspect.isfunction(v) and v.__code__.co_filename.endswith(relpath)}
+
+
+def _rq(rng, lo=-9, hi=9, den=8):
+    return F(rng.randint(lo * den, hi * den), den)
+
+
+def _same(a, b):
+    if isinstance(a, np.ndarray) or isinstance(b, np.ndarray):
+        return np.shape(a) == np.shape(b) and bool(np.all(np.asarray(a, dtype=object) == np.asarray(b, dtype=object)))
+    return a == b
+
+
+def other_variant_cases(kind, rng, fns):
+    """yields (function name, args builder) -- the builder returns fresh argument lists (in-place outputs)"""
+    PR = dict(CN0=F(1, 7), kN0=F(1, 18), deltaRN0=F(4), rp=F(29, 4), CTi=F(1), kTi=F(8, 29), deltaRTi=F(3, 2), deltaR=F(13), R0=F(240), eps=F(1, 1000))
+    if kind == 'poisson':
+        g = qlift.arr([[[[_rq(rng) for _ in range(4)] for _ in range(3)] for _ in range(2)] for _ in range(3)])
+        feq = qlift.arr([[_rq(rng) for _ in range(4)] for _ in range(3)])
+        q = qlift.arr([_rq(rng, 0, 3) for _ in range(4)])
+        yield 'get_perturbed_rho', lambda: [qlift._zeros((3, 2, 3)), feq, g, q], [0]
+        yield 'get_rho', lambda: [qlift._zeros((3, 2, 3)), g, q], [0]
+    elif kind == 'init':
+        r, v, th, z = _rq(rng, 1, 14), _rq(rng, -7, 7), _rq(rng, 0, 6), _rq(rng, 0, 100)
+        yield 'n0', lambda: [r, PR['CN0'], PR['kN0'], PR['deltaRN0'], PR['rp']], []
+        yield 'Ti', lambda: [r, PR['CTi'], PR['kTi'], PR['deltaRTi'], PR['rp']], []
+        yield 'Te', lambda: [r, PR['CTi'], PR['kTi'], PR['deltaRTi'], PR['rp']], []
+        yield 'perturbation', lambda: [r, th, z, 3, 1, PR['rp'], PR['deltaR'], PR['R0']], []
+        yield 'f_eq', lambda: [r, v, PR['CN0'], PR['kN0'], PR['deltaRN0'], PR['rp'], PR['CTi'], PR['kTi'], PR['deltaRTi']], []
+        yield 'n0deriv_normalised', lambda: [r, PR['kN0'], PR['rp'], PR['deltaRN0']], []
+        tail = [3, 1, PR['eps'], PR['CN0'], PR['kN0'], PR['deltaRN0'], PR['rp'], PR['CTi'], PR['kTi'], PR['deltaRTi'], PR['deltaR'], PR['R0']]
+        yield 'init_f', lambda: [r, th, z, v] + tail, []
+        thv = qlift.arr([_rq(rng, 0, 6) for _ in range(3)])
+        zv = qlift.arr([_rq(rng, 0, 50) for _ in range(2)])
+        rv = qlift.arr([_rq(rng, 1, 14) for _ in range(3)])
+        vv = qlift.arr([_rq(rng, -7, 7) for _ in range(4)])
+        yield 'init_f_flux', lambda: [qlift._zeros((3, 2)), r, thv, zv, v] + tail, [0]
+        yield 'init_f_pol', lambda: [qlift._zeros((3, 3)), rv, thv, z, v] + tail, [0]
+        yield 'init_f_vpar', lambda: [qlift._zeros((3, 4)), r, thv, z, vv] + tail, [0]
+        yield 'feq_vector', lambda: [qlift._zeros((3, 4)), rv, vv, PR['CN0'], PR['kN0'], PR['deltaRN0'], PR['rp'], PR['CTi'], PR['kTi'], PR['deltaRTi']], [0]
+    elif kind == 'adv':
+        twopi = 2 * F(355, 113)
+        nth, nr = 4, 5
+        for cubic in (False, True):
+            # theta: periodic cubic on nth cells of [0, 2pi); r: clamped cubic on nr-3+... cells
+            dth = twopi / nth
+            if cubic:
+                kq = [F(0), twopi, dth, F(nth)]
+                nbq = nth + 3
+                rlo, rhi, ncr = F(1), F(5), 4
+                kr = [rlo, rhi, (rhi - rlo) / ncr, F(ncr)]
+                nbr = ncr + 3
+            else:
+                kq = [dth * (i - 3) for i in range(nth + 7)]
+                nbq = nth + 3
+                br = [F(1), F(2), F(7, 2), F(4), F(5)]
+                kr = [br[0]] * 3 + br + [br[-1]] * 3
+                nbr = len(kr) - 4
+            qpts = [dth * i for i in range(nth)]
+            rpts = [F(1), F(2), F(3), F(4), F(5)][:nr]
+            cphi0 = [[F(rng.randint(-8, 8), 64) for _ in range(nbr)] for _ in range(nth)]
+            cphi = [cphi0[i % nth] for i in range(nbq)]                       # periodic wrap of the coefficients
+            cpol0 = [[_rq(rng, 0, 4) for _ in range(nbr)] for _ in range(nth)]
+            cpol = [cpol0[i % nth] for i in range(nbq)]
+            PRv = [F(1, 7), F(1, 18), F(4), F(3), F(1), F(8, 29), F(3, 2)]
+
+            def polargs(dt, nul, impl, cubic=cubic, kq=kq, kr=kr, cphi=cphi, cpol=cpol):
+                f = qlift._zeros((nth, nr))
+                scr = [qlift._zeros((nth, nr)) for _ in range(8)]
+                a = [f, dt, F(1, 3), qlift.arr(rpts), qlift.arr(qpts)] + scr + \
+                    [qlift.arr(kq), qlift.arr(kr), qlift.arr(cphi), 3, 3, qlift.arr(kq), qlift.arr(kr), qlift.arr(cpol), 3, 3] + PRv + [F(2)]
+                if impl:
+                    a += [F(1, 50)]
+                return a + [cubic, nul]
+            for dt in (F(1, 2), F(-3, 4)):
+                for nul in (False, True):
+                    yield 'poloidal_advection_step_expl', (lambda dt=dt, nul=nul: polargs(dt, nul, False)), [0, 11, 12]
+                    yield 'poloidal_advection_step_impl', (lambda dt=dt, nul=nul: polargs(dt, nul, True)), [0, 11, 12]
+            # v-parallel
+            if cubic:
+                kv = [F(-4), F(4), F(2), F(4)]
+                nbv = 7
+            else:
+                bv = [F(-4), F(-1), F(1, 2), F(4)]
+                kv = [bv[0]] * 3 + bv + [bv[-1]] * 3
+                nbv = len(kv) - 4
+            cv = [_rq(rng, 0, 3) for _ in range(nbv)]
+            vp = [F(-4), F(-3, 2), F(0), F(5, 2), F(4)]
+            for bound in (0, 1, 2):
+                for cdt in (F(0), F(3, 8), F(-17, 2)):
+                    yield 'v_parallel_advection_eval_step', (lambda bound=bound, cdt=cdt, kv=kv, cv=cv, cubic=cubic:
+                                                             [qlift._zeros(5), qlift.arr([x - cdt for x in vp]), F(3), F(-4), F(4), qlift.arr(kv), 3, qlift.arr(cv)]
+                                                             + PRv + [bound, cubic]), [0]
+            # flux: theta spline coefficients, shifts
+            ct0 = [_rq(rng, 0, 3) for _ in range(nth)]
+            ct = [ct0[i % nth] for i in range(nbq)]
+            sh = [k + rng.randint(-7, 7) for k in (-2, -1, 0, 1, 2, 3)]
+            tsh = [_rq(rng, -2, 2) for _ in range(6)]
+            nz = 7
+
+            def lagargs(i, kq=kq, ct=ct, sh=sh, tsh=tsh, cubic=cubic):
+                return [i, np.array(sh), qlift._zeros((nz, nth, 6)), qlift.arr(qpts), qlift.arr(tsh), qlift.arr(kq), 3, qlift.arr(ct), cubic]
+            for i in (0, 3, 6):
+                yield 'get_lagrange_vals', (lambda i=i: lagargs(i)), [2]
+            vals = qlift.arr([[[_rq(rng) for _ in range(6)] for _ in range(nth)] for _ in range(nz)])
+            lc = qlift.arr([_rq(rng, -1, 1) for _ in range(6)])
+            yield 'flux_advection', (lambda vals=vals, lc=lc: [nth, nz, qlift._zeros((nth, nz)), lc, vals]), [2]
+
+
+def other_variants_check(chk, rng, reps):
+    stubs = _stubs()
+    se = qlift.load('pygyro/splines/spline_eval_funcs.py')
+    cu = qlift.load('pygyro/splines/cubic_uniform_spline_eval_funcs.py')
+    ini = qlift.load('pygyro/initialisation/initialiser_funcs.py', extra=stubs)
+    for kind, (base, variants) in OTHER_VARIANTS.items():
+        ref = qlift.load(base, extra=stubs, prior=[se, cu, ini])
+        rfun = _own_functions(ref, base)
+        for vpath in variants:
+            if not os.path.exists(os.path.join(core.REPO, vpath)):
+                continue
+            vname = os.path.basename(vpath)
+            try:
+                var = qlift.load(vpath, extra=stubs, prior=[se, cu, ini])
+            except Exception as e:
+                chk.violation('variants:%s:does-not-load' % vname, '%s cannot be executed: %r' % (vpath, e), {'kind': 'impl', 'file': vpath})
+                continue
+            vfun = _own_functions(var, vpath)
+            missing = sorted(n for n in rfun if n not in vfun)
+            if missing:
+                chk.violation('variants:%s:missing-function' % vname, '%s does not define %r which %s defines' % (vpath, missing, base),
+                              {'kind': 'impl', 'file': vpath, 'missing': missing})
+            for _ in range(reps):
+                for fn, build, outs in other_variant_cases(kind, rng, rfun):
+                    if fn not in vfun or fn not in rfun:
+                        continue
+                    a1 = build()
+                    a2 = build()
+                    ncase = chk.cov['evaluations']
+                    try:
+                        r1 = implrun_call(rfun[fn], a1)
+                        r2 = implrun_call(vfun[fn], a2)
+                    except Exception as e:
+                        chk.violation('variants:%s:%s-raises' % (vname, fn), '%s: %s raises %r on arguments the pyccel source accepts' % (vpath, fn, e),
+                                      {'kind': 'impl', 'file': vpath, 'fn': fn})
+                        continue
+                    chk.count((vpath, fn, ncase), stratum='variant:' + vname, sample={'file': vpath, 'fn': fn})
+                    same = _same(r1, r2) and all(_same(a1[k], a2[k]) for k in outs)
+                    chk.cov['disagreements_checked'] += 1
+                    if not same:
+                        chk.violation('variants:%s:%s-differs' % (vname, fn), '%s: %s gives a different result than %s on exact inputs' % (vpath, fn, base),
+                                      {'kind': 'impl', 'file': vpath, 'fn': fn, 'seed': chk.seed})
+
+
+def implrun_call(f, args):
+    """call with an alarm: the implicit poloidal iteration may not terminate"""
+    import signal
+
+    def _al(s, fr):
+        raise TimeoutError('no termination within 20 s')
+    old = signal.signal(signal.SIGALRM, _al)
+    signal.setitimer(signal.ITIMER_REAL, 20.0)
+    try:
+        return f(*args)
+    finally:
+        signal.setitimer(signal.ITIMER_REAL, 0)
+        signal.signal(signal.SIGALRM, old)
+
+
 def run():
     chk = core.Check('C19', 'translation_validation')
     rng = random.Random(chk.seed)
@@ -198,6 +386,7 @@ def run():
     finally:
         shutil.rmtree(tmp, ignore_errors=True)
     nv = variant_check(chk, rng, 3 if quick else 20)
+    other_variants_check(chk, rng, 1 if quick else 4)
     chk.assumptions += ['pyccel 2.0.1 + gfortran as installed; the comparison is per input (validation), not a proof about the compiler',
                         'numba / pythran variants are validated as source (exact execution with decorators removed); their own compilers are not installed']
     extra = {'programs': max(programs, 1), 'explanation': 'documented pyccel build of a scratch copy of the working tree; compiled vs interpreted kernels on seeded inputs; '
